@@ -41,13 +41,17 @@ package ctlog
 //@ func ctlog.(*Log).sequencePool props C01 C02 C03 C04 C06 C08 C17
 //@   requires l != nil && p != nil && l.c != nil
 //@   requires realizable(l.tree.Tree)
+//@   requires l.tree.N >= 0 && (l.tree.N % 256 == 0 ==> ((!has(l.edgeTiles, -1) || l.edgeTiles[-1].W == 256) && (!has(l.edgeTiles, -2) || l.edgeTiles[-2].W == 256)))
 //@   requires !closed(p.done)
 //@   init gReplaceOK == 0 && gReplaceTried == 0 && gAppliedOK == 0 && gCachePuts == 0 && gFetches == 0
 //@   init gUp == emptyset("set[string]") && gUpTried == emptyset("set[string]") && gDiscarded == emptyset("set[string]")
 //@   invariant "range p.pendingLeaves" bound: rangeindex < len(p.pendingLeaves)
+//@   invariant "range p.pendingLeaves" [C04] tile-boundary: n % 256 == 0 ==> ((!has(edgeTiles, -1) || edgeTiles[-1].W == 256) && (!has(edgeTiles, -2) || edgeTiles[-2].W == 256) && len(dataTile) == 0 && len(namesTile) == 0)
 //@   invariant "range p.pendingLeaves" count: n == old(l.tree.N) + rangeindex + 1
 //@   invariant "range p.pendingLeaves" overlay: hashReader != nil && isPrefix(seqOfTree(old(l.tree.Tree)), hashReader.gseq) && slenQ(hashReader.gseq) == n
 //@   invariant "range p.pendingLeaves" no-ops: gReplaceTried == 0 && gUpTried == emptyset("set[string]") && gDiscarded == emptyset("set[string]") && gAppliedOK == 0 && gCachePuts == 0
+//@   invariant "range tiles" [C04] tile-boundary2: n % 256 == 0 ==> ((!has(edgeTiles, -1) || edgeTiles[-1].W == 256) && (!has(edgeTiles, -2) || edgeTiles[-2].W == 256))
+//@   invariant "range tiles" hash-tiles-only: rangeindex < len(tiles) && (forall j int :: (0 <= j && j < len(tiles)) ==> tiles[j].L >= 0)
 //@   invariant "range tiles" no-ops2: gReplaceTried == 0 && gUpTried == emptyset("set[string]") && gDiscarded == emptyset("set[string]") && gAppliedOK == 0 && gCachePuts == 0
 //@   call ctlog.LockBackend.Replace requires [C01,C06] cas-old: c_old == old(l.lockCheckpoint) && l.lockCheckpoint == old(l.lockCheckpoint)
 //@   call ctlog.LockBackend.Replace requires [C01] time: timestamp > old(l.tree.Time) && tree.Time == timestamp
@@ -72,6 +76,7 @@ package ctlog
 //@   ensures [C03,C06] tile-failure-fatal: gReplaceOK == 1 && gAppliedOK == 0 ==> err != nil && Is(err, errFatal)
 //@   ensures [C01] at-most-one-cas: gReplaceTried <= 1
 //@   ensures [C01] state-advances-with-cas: gReplaceOK == 1 ==> l.tree.N == old(l.tree.N) + len(p.pendingLeaves) && l.tree.Time > old(l.tree.Time) && lockedBytes(l.lockCheckpoint) == gLastNew
+//@   ensures [C04] edge-consistent-after: l.tree.N >= 0 && (l.tree.N % 256 == 0 ==> ((!has(l.edgeTiles, -1) || l.edgeTiles[-1].W == 256) && (!has(l.edgeTiles, -2) || l.edgeTiles[-2].W == 256)))
 //@   ensures [C08] no-fetch: gFetches == 0
 //@   ensures [C01] history-extends: realizable(l.tree.Tree) && isPrefix(seqOfTree(old(l.tree.Tree)), seqOfTree(l.tree.Tree)) && l.tree.Time >= old(l.tree.Time)
 //@   ensures [C06] nonfatal-keeps-running: err != nil ==> Is(err, errFatal)
@@ -107,6 +112,8 @@ package ctlog
 //@   init gReplaceTried == 0 && gCreateOK == 0 && gAppliedOK == 0 && gDiscarded == emptyset("set[string]")
 //@   call tlog.TileHashReader requires [C08] verify-against-lock-tree: c_tree == c.Tree
 //@   call ctlog.applyStagedUploads requires [C03] recover-only-when-behind: c1.N < c.N && c_stagedUploads == stagedUploads
+//@   invariant "for i := start" [C08] leaves-verified: start <= i && (dataTile.W >= 0 ==> i <= start + dataTile.W) && verifiedUpTo(edgeTiles[-1].B, edgeTiles[0].Tile, edgeTiles[0].B, start, i, b)
+//@   mapupdate edgeTiles requires [C08] names-tile-only-after-all-leaves-verified: c_key == -2 ==> (dataTile.W >= 0 ==> verifiedUpTo(edgeTiles[-1].B, edgeTiles[0].Tile, edgeTiles[0].B, start, start + dataTile.W, b))
 //@   returns [C06] refuse-fork-or-ahead: ret1 == nil ==> c1.N <= c.N && (c1.N == c.N ==> c1.Hash == c.Hash)
 //@   returns [C01,C06,C08] both-verified: ret1 == nil ==> opensTo(lockedBytes(lock), config, c) && ckTimeOf(lockedBytes(lock)) == timestamp && opensTo(sth, config, c1)
 //@   returns [C03] recovered: ret1 == nil ==> (c1.N < c.N ==> gAppliedOK == 1)
@@ -129,6 +136,7 @@ package ctlog
 //@   init gUp == emptyset("set[string]") && gFetchTried == emptyset("set[string]")
 //@   modifies gIssuerDone
 //@   call ctlog.Backend.Upload requires [C01,C04] issuer-key: hasPrefix(c_key, "issuer/") && c_key == path && c_data == issuer
+//@   mapupdate issuers requires [C04,C08] known-only-after-store-or-compare: held(&l.issuersMu) && c_key == fingerprint && ((gUp[path] && gUpData[path] == issuer && gUpImm[path]) || (gFetchTried[path] && !gFetchFailed[path] && old__1 == issuer))
 //@   returns [C04,C08] stored-or-compared: ret == nil ==> found || l.issuers[fingerprint] || (gUp[path] && gUpData[path] == issuer && gUpImm[path]) || (gFetchTried[path] && !gFetchFailed[path] && old__1 == issuer)
 //@   defines ret == nil ==> gIssuerDone == upd(old(gIssuerDone), issuer, true)
 //@   defines ret != nil ==> gIssuerDone == old(gIssuerDone)
@@ -143,10 +151,11 @@ package ctlog
 
 //@ func ctlog.(*Log).addLeafToPool props C02 C04 C07 C17
 //@   requires l != nil && l.c != nil && leaf != nil && l.currentPool != nil && !held(&l.poolMu) && !held(&l.issuersMu)
+//@   requires forall k int :: has(l.currentPool.lowPriority, k) ==> (0 <= k && k < len(l.currentPool.pendingLeaves))
 //@   init gIssuerDone == emptyset("set[bytes]")
 //@   invariant "range leaf.Issuers" issuers-done: forall k int :: 0 <= k && k <= rangeindex ==> gIssuerDone[leaf.Issuers[k]]
 //@   invariant "range leaf.Issuers" bound: rangeindex < len(leaf.Issuers)
-//@   invariant "range leaf.Issuers" lock-free: !held(&l.poolMu) && !held(&l.issuersMu) && l.currentPool != nil
+//@   invariant "range leaf.Issuers" lock-free: !held(&l.poolMu) && !held(&l.issuersMu) && l.currentPool != nil && (forall k int :: has(l.currentPool.lowPriority, k) ==> (0 <= k && k < len(l.currentPool.pendingLeaves)))
 //@   returns [C04] issuers-first: ret1 == "sequencer" ==> (forall k int :: 0 <= k && k < len(leaf.Issuers) ==> gIssuerDone[leaf.Issuers[k]])
 //@   returns [C07,C17] only-sequencer-grows: ret1 != "sequencer" ==> l.currentPool.pendingLeaves == old(l.currentPool.pendingLeaves)
 //@   returns [C17] bound: (ret1 == "sequencer" && l.c.PoolSize > 0 && old(len(l.currentPool.pendingLeaves)) <= l.c.PoolSize) ==> len(l.currentPool.pendingLeaves) <= l.c.PoolSize
@@ -156,22 +165,28 @@ package ctlog
 //@   returns [C17] full-evicts-one-low: (ret1 == "sequencer" && l.c.PoolSize > 0 && old(len(l.currentPool.pendingLeaves)) >= l.c.PoolSize) ==> len(l.currentPool.lowPriority) == old(len(l.currentPool.lowPriority)) - 1
 //@   returns [C17] full-evicts-only-for-high: (ret1 == "sequencer" && l.c.PoolSize > 0 && old(len(l.currentPool.pendingLeaves)) >= l.c.PoolSize) ==> !lowPriority
 //@   returns [C07] registered: ret1 == "sequencer" ==> has(p.byHash, h)
+//@   mapupdate byHash requires [C02,C07,C17] waiter-slot-holds-leaf: c_key == h && 0 <= n && n < len(p.pendingLeaves) && p.pendingLeaves[n] == leaf
 //@   returns [C17] closed-pool-refuses: old(l.currentPool.err) != nil && ret1 != "issuer" ==> ret1 == "closed"
 //@   ensures [C07] unlocks: !held(&l.poolMu)
+//@   ensures [C17] low-priority-slots-in-range: forall k int :: has(l.currentPool.lowPriority, k) ==> (0 <= k && k < len(l.currentPool.pendingLeaves))
 
 //@ func ctlog.(*Log).sequence props C01 C07 C17
 //@   requires l != nil && l.c != nil && l.currentPool != nil && !held(&l.poolMu) && realizable(l.tree.Tree) && !closed(l.currentPool.done)
+//@   requires l.tree.N >= 0 && (l.tree.N % 256 == 0 ==> ((!has(l.edgeTiles, -1) || l.edgeTiles[-1].W == 256) && (!has(l.edgeTiles, -2) || l.edgeTiles[-2].W == 256)))
 //@   modifies gAccepting
 //@   defines gAccepting == false
 //@   call ctlog.(*Log).sequencePool requires [C07] rotated-out: c_p == old(l.currentPool) && c_p != l.currentPool && l.inSequencing == c_p.byHash && !held(&l.poolMu)
 //@   ensures [C07] in-sequencing-cleared: l.inSequencing == nil && !held(&l.poolMu)
 //@   ensures [C17] fresh-pool: l.currentPool != nil && l.currentPool != old(l.currentPool) && !closed(l.currentPool.done) && l.currentPool.err == nil
 //@   ensures [C01] tree-stays-realizable: ret == nil ==> realizable(l.tree.Tree)
+//@   ensures [C04] edge-stays-consistent: l.tree.N >= 0 && (l.tree.N % 256 == 0 ==> ((!has(l.edgeTiles, -1) || l.edgeTiles[-1].W == 256) && (!has(l.edgeTiles, -2) || l.edgeTiles[-2].W == 256)))
 //@   ensures [C06,C17] error-is-fatal: ret != nil ==> Is(ret, errFatal)
 
 //@ func ctlog.(*Log).RunSequencer props C06 C17
 //@   requires l != nil && l.c != nil && l.currentPool != nil && !held(&l.poolMu) && realizable(l.tree.Tree) && !closed(l.currentPool.done)
+//@   requires l.tree.N >= 0 && (l.tree.N % 256 == 0 ==> ((!has(l.edgeTiles, -1) || l.edgeTiles[-1].W == 256) && (!has(l.edgeTiles, -2) || l.edgeTiles[-2].W == 256)))
 //@   invariant "for" alive: l.currentPool != nil && !held(&l.poolMu) && realizable(l.tree.Tree) && !closed(l.currentPool.done)
+//@   invariant "for" edge: l.tree.N >= 0 && (l.tree.N % 256 == 0 ==> ((!has(l.edgeTiles, -1) || l.edgeTiles[-1].W == 256) && (!has(l.edgeTiles, -2) || l.edgeTiles[-2].W == 256)))
 //@   call ctlog.(*Log).sequence requires [C17] only-while-accepting: gAccepting
 //@   ensures [C17] stops-with-error: err != nil
 //@   ensures [C06,C17] pool-failed-and-released: closed(l.currentPool.done) && l.currentPool.err == err && !held(&l.poolMu)
